@@ -8,6 +8,8 @@
      {"ev":"Deliver","r"}                     logged BEFORE the mock is allowed to return to the cache code
      {"ev":"Ret","r","ans":[{"x","j","v"},..],"mv"}   logged AFTER the call returned (v = -1: undecodable / mutated)
      {"ev":"Ret","r","err":".."}              the call returned a non-nil error (whatever else it returned is ignored)
+                                              (after every Ret the driver overwrites the backing array of the index slice
+                                              it passed in, as a caller may: no event, the slice is the caller's own)
      {"ev":"Reorg","e0"}  {"ev":"InvCall","e0"} {"ev":"InvRet"}  {"ev":"TrimCall","ep"} {"ev":"TrimRet"}
      {"ev":"Mutate","a"}                      the driver wrote to everything reachable from an earlier answer
    Call-type events are logged before the operation starts and return-type events after it completed, so the
